@@ -23,7 +23,8 @@ CFG = {
         "vaxis.Characters (uniseg segmentation, widths) is a parameter of the pager model: the harness passes the characters",
         "Window.Println / SetCell / Fill (clipping, C11) are not re-modelled here: the list model prints item i on row i when i < height",
         "uint is 64 bit (Go on amd64/arm64) in the Dynamic list model",
-        "the step from the regenerated statement skeleton of Dynamic (Gen/DynSkel.lean) to the executable model (Model/DynList.lean) is a transcription pinned by skeleton_*/facts_* theorems and the correspondence run; there is no interpreter of the skeleton",
+        "for Dynamic.Draw / insertChildren / the event switches the step from the regenerated statement skeleton (Gen/DynSkel.lean) to the executable model (Model/DynList.lean) is a transcription pinned by skeleton_*/facts_* theorems and the correspondence run (the small methods are interpreted: interp_*)",
+        "Props/C19.lean imports Spec/Surface.lean and Model/Window.lean (C14's spec of the painter's algorithm) for dyn_selected_on_top",
         "vxfw.NewSurface / AddChild / WriteCell (C14) are not re-modelled: the surface-size statement is syntactic (facts_surface_is_max) plus the harness reading s.Size",
     ],
     "level_text": "widgets/list: no panic, index in range, the selected row inside the viewport and rows in order/contiguous/"
@@ -43,15 +44,17 @@ CFG = {
                   "pager_complete, pager_offset_clamped, pager_scroll_history, pager_draw_rows, pager_row_keeps_characters "
                   "(characters >= 1 column wide, window >= 1 column), scrollbar_in_track, scrollbar_all_inputs, dyn_layout and "
                   "dyn_no_overlap (any state), dyn_no_panic_empty, dyn_no_panic, dyn_top_valid, dyn_anchor, "
-                  "dyn_next_prev_in_range, dyn_cursor_visible(_any_state), dyn_next_prev_visible(_any_state) - all gaps >= 0, "
+                  "dyn_next_prev_in_range, dyn_cursor_visible(_any_state), dyn_next_prev_visible(_any_state), dyn_selected_on_top "
+                  "(with C14's painter's algorithm), pager_line_reachable - all gaps >= 0, "
                   "histories with item replacement; no _partial statement is left. Witnesses show each statement false of the "
                   "code before its repair (repair Bools of DynList.Facts). Validated by correspondence only: what "
                   "Println/SetCell do with the rows; that Model/DynList.lean transcribes the skeleton faithfully. "
                   "Model tied to source by Gen/ListFacts.lean (index expressions translated, Draw/Layout/scrollbar bodies "
                   "pinned statement by statement) and, for Dynamic, by Gen/DynSkel.lean: all eleven method bodies translated "
                   "into syntax (no digest), fully_recognised, skeleton_* (statement structure), facts_* (every arithmetic/"
-                  "boolean expression evaluated = the model's expression, for all values), the five repair facts read off the "
-                  "skeleton in Lean; and by the public-API correspondence (0 mismatches allowed).",
+                  "boolean expression evaluated = the model's expression, for all values), interp_* (ensureScroll, SetCursor, "
+                  "SetPendingScroll, NextItem, PrevItem: the regenerated syntax run through an interpreter IS the model function, "
+                  "for all states and builders), the five repair facts read off the skeleton in Lean; and by the public-API correspondence (0 mismatches allowed).",
     "assumptions": [
         "Dynamic list: cursors passed to SetCursor are below 2^63; the Builder has fewer than 2^63 items and is prefix-closed (nil from the first missing index on)",
         "Draw contexts are bounded (Max.Width, Max.Height != 65535), as Dynamic.Draw itself requires",
